@@ -65,7 +65,7 @@ pub fn plan_for(prop: &str, tier: Tier, kind: Kind) -> Plan {
             } else if wgt >= 4 {
                 p.g2_all = few.clone();
                 p.g2_small = bnd.clone();
-                p.g3 = vec![(34, bnd.clone(), vec![0]), (130, vec![0x7F, 0x1F, 0x09], vec![0])];
+                p.g3 = vec![(34, bnd.clone(), vec![0]), (200, vec![0x7F, 0x1F, 0x09, 0x80], vec![0])];
                 p.g4_hdr = 4;
                 p.g4_line = 2;
                 p.g5 = 6000;
@@ -73,7 +73,7 @@ pub fn plan_for(prop: &str, tier: Tier, kind: Kind) -> Plan {
             } else {
                 p.g2_all = bnd.clone();
                 p.g2_small = all.clone();
-                p.g3 = vec![(40, bnd.clone(), vec![0, 3]), (16, all.clone(), vec![0]), (130, vec![0x7F, 0x1F, 0x09, 0x00], vec![0])];
+                p.g3 = vec![(40, bnd.clone(), vec![0, 3]), (16, all.clone(), vec![0]), (200, vec![0x7F, 0x1F, 0x09, 0x00, 0x80, 0xFF], vec![0])];
                 p.g4_hdr = 4;
                 p.g4_line = 3;
                 p.g5 = 20000;
@@ -91,7 +91,7 @@ pub fn plan_for(prop: &str, tier: Tier, kind: Kind) -> Plan {
             } else if wgt >= 4 {
                 p.g2_all = bnd.clone();
                 p.g2_small = all.clone();
-                p.g3 = vec![(70, bnd.clone(), vec![0, 5]), (24, all.clone(), vec![0]), (200, vec![0x7F, 0x1F, 0x09], vec![0])];
+                p.g3 = vec![(70, bnd.clone(), vec![0, 5]), (24, all.clone(), vec![0]), (330, vec![0x7F, 0x1F, 0x09, 0x80], vec![0])];
                 p.g4_hdr = 5;
                 p.g4_line = 3;
                 p.g5 = 100000;
@@ -99,7 +99,7 @@ pub fn plan_for(prop: &str, tier: Tier, kind: Kind) -> Plan {
             } else {
                 p.g2_all = all.clone();
                 p.g2_small = vec![];
-                p.g3 = vec![(100, bnd.clone(), vec![0, 1, 7, 9]), (40, all.clone(), vec![0]), (300, vec![0x7F, 0x1F, 0x09, 0x00], vec![0])];
+                p.g3 = vec![(100, bnd.clone(), vec![0, 1, 7, 9]), (40, all.clone(), vec![0]), (420, vec![0x7F, 0x1F, 0x09, 0x00, 0x80, 0xFF], vec![0])];
                 p.g4_hdr = 6;
                 p.g4_line = 4;
                 p.g5 = 400000;
